@@ -105,7 +105,7 @@ func strHasToken(header, token string) (has bool) {
 
 func btsHasToken(header, token []byte) (has bool) {
 	httphead.ScanTokens(header, func(v []byte) bool {
-		has = bytes.EqualFold(v, token)
+		has = asciiEqualFold(v, token)
 		return !has
 	})
 	return has
@@ -203,4 +203,26 @@ func nonZero(a, b int) int {
 		return a
 	}
 	return b
+}
+
+// asciiEqualFold reports whether a and b are equal under ASCII case folding.
+// HTTP tokens are ASCII: Unicode folding (as bytes.EqualFold does) would also
+// take the Kelvin sign for "k" and the long s for "s".
+func asciiEqualFold(a, b []byte) bool {
+	if len(a) != len(b) {
+		return false
+	}
+	for i := 0; i < len(a); i++ {
+		x, y := a[i], b[i]
+		if 'A' <= x && x <= 'Z' {
+			x += 'a' - 'A'
+		}
+		if 'A' <= y && y <= 'Z' {
+			y += 'a' - 'A'
+		}
+		if x != y {
+			return false
+		}
+	}
+	return true
 }
